@@ -165,6 +165,7 @@ def run(chk, prog, tier):
     chk.guard('setter codes', c15.check_setter, chk, prog, env, model)
     chk.guard('getter codes', c15.check_getter, chk, prog, env, model)
     chk.guard('dispatch codes', c15.check_dispatch, chk, prog, env, model)
+    H.require_reached(H.VERIFY_PRIMS + H.SIGN_PRIMS + H.HMAC_PRIMS, 'C14')
     return chk.finish(
         'Path-sensitive abstract interpretation of jwt_checker_verify and jwt_builder_generate (all internal callees '
         'inlined, both crypto providers resolved from their ops-table initialisers, user callback modelled as an '
